@@ -6,7 +6,7 @@
 (*  [ev |-> "step", case, op, ret, res, again, saved,   sequential step    *)
 (*   (res/again/saved: [st, paras, hdr, tbl] projections of documents)     *)
 (*   (ret = "fatal" | "timeout": the step killed the executing process)    *)
-(*   tmod, bmod, dmod, ptmod, pbmod, pdmod, cache, probe]                  *)
+(*   tmod, bmod, dmod, ptmod, pbmod, pdmod, atmod, abmod, cache, probe]    *)
 (*  [ev |-> "conc", case, mode, setup, calls, final,    one concurrent run *)
 (*   races, fatal, gates]                                                  *)
 (* The judge never blocks: deviations become witnesses and the reference   *)
@@ -57,6 +57,8 @@ JudgeStep(e) ==
             ELSE {})
       \* analysis: the template rendered twice with the data the analysis asks for (res, again)
       \cup (IF name = "Analyze" /\ e.again # e.res THEN {<<"nondeterministic", "required-data">>} ELSE {})
+      \* ... and the analysis itself only reads (atmod / abmod: what changed between its call and its return)
+      \cup Each("template-modified-by-analysis", e.atmod) \cup Each("basedoc-modified-by-analysis", e.abmod)
       \* rendering must leave the templates, their base documents and the data alone
       \cup Each("template-modified", e.tmod) \cup Each("template-modified", e.ptmod)
       \cup Each("basedoc-modified", e.bmod) \cup Each("basedoc-modified", e.pbmod)
